@@ -33,6 +33,8 @@ def one(d):
 ids = sys.argv[1:] or sorted(x for x in os.listdir(os.path.join(V, 'seeded')) if os.path.exists(os.path.join(V, 'seeded', x, 'patch.diff')))
 with ThreadPoolExecutor(14) as ex:
     res = dict(ex.map(one, ids))
+if sys.argv[1:] and os.path.exists('/tmp/cross.json'):  # ids given: merge into the existing table
+    old = json.load(open('/tmp/cross.json')); old.update(res); new = res; res = old
 json.dump(res, open('/tmp/cross.json', 'w'), indent=0)
 cross = 0
 for d, r in sorted(res.items()):
